@@ -181,6 +181,45 @@ impl Modelled for DTZ3 {
 	}
 }
 
+/// transparent newtypes with a SKIPPED zero-sized field whose `Default` and `Drop` are visible in the
+/// ledger: however the value is decoded (in place behind Box / Rc / Arc / arrays, or by value), the
+/// skipped field must be constructed exactly once and dropped exactly once
+#[derive(Encode, Decode, DecodeWithMemTracking)]
+#[repr(transparent)]
+pub struct DTS(Tracked, #[codec(skip)] TrackedZst);
+impl Modelled for DTS {
+	fn ty() -> Ty {
+		Ty::Struct { name: "DTS".into(), fields: vec![FieldTy::plain(Tracked::ty()), FieldTy::skip(Ty::Unit)] }
+	}
+	fn to_val(&self) -> Val {
+		Val::Tuple(vec![self.0.to_val(), Val::Unit])
+	}
+	fn from_val(v: &Val) -> Self {
+		DTS(Tracked::from_val(&f(v)[0]), TrackedZst::new())
+	}
+}
+
+#[derive(Encode, Decode, DecodeWithMemTracking)]
+#[repr(transparent)]
+pub struct DTS2 {
+	#[codec(skip)]
+	tok: TrackedZst,
+	inner: [Tracked; 2],
+	#[codec(skip)]
+	tok2: TrackedZst,
+}
+impl Modelled for DTS2 {
+	fn ty() -> Ty {
+		Ty::Struct { name: "DTS2".into(), fields: vec![FieldTy::skip(Ty::Unit), FieldTy::plain(<[Tracked; 2]>::ty()), FieldTy::skip(Ty::Unit)] }
+	}
+	fn to_val(&self) -> Val {
+		Val::Tuple(vec![Val::Unit, self.inner.to_val(), Val::Unit])
+	}
+	fn from_val(v: &Val) -> Self {
+		DTS2 { tok: TrackedZst::new(), inner: <[Tracked; 2]>::from_val(&f(v)[1]), tok2: TrackedZst::new() }
+	}
+}
+
 fn containers(slow: bool) -> Vec<TypeOps> {
 	let mut v: Vec<TypeOps> = Vec::new();
 	macro_rules! k { ($($t:ty),* $(,)?) => { $( v.push(monitor::probe_ops!($t)); )* } }
@@ -198,6 +237,7 @@ fn containers(slow: bool) -> Vec<TypeOps> {
 		GenericArray<Tracked, typenum::U3>, Vec<GenericArray<Tracked, typenum::U2>>,
 		std::borrow::Cow<'static, [DupTracked]>,
 		DTZ2, Box<DTZ2>, [DTZ2; 2], DTZ3, Box<DTZ3>, [DTZ3; 3], Rc<DTZ3>, Vec<DTZ2>,
+		DTS, Box<DTS>, [DTS; 3], Rc<DTS>, Arc<DTS>, Vec<DTS>, DTS2, Box<DTS2>, [DTS2; 2], Vec<Box<DTS2>>,
 		Vec<BigTracked>, VecDeque<BigTracked>, BinaryHeapBig, Vec<Vec<BigTracked>>,
 		// pointers to plain primitives: nothing for the ledger to see, but every decoded pointer
 		// must own a real allocation - dropping the value is watched by Miri / ASan / the allocator
